@@ -84,6 +84,32 @@ def special_cases():
     for i in range(5):
         c = Sum(scope=[0], children=[c], weights=np.array([1.0], dtype=np.float32)) if i % 2 else Product(scope=[0], children=[c])
     out.append(('chain', c))
+    out += rare_cases()
+    return out
+
+
+def rare_cases():
+    """mixtures with a RARE component: merged weights far below 1e-8 and weights within 1e-5 of one (what `np.isclose` calls "zero"
+    and "one"), next to components that are deterministic (Bernoulli p in {0, 1}) — on the inputs only the rare component supports,
+    the value of the circuit is the rare mass, not zero"""
+    out = []
+    f32 = lambda *w: np.array(w, dtype=np.float32)
+    mk = lambda a, b: Product(children=[Bernoulli(0, float(a)), Bernoulli(1, float(b))])
+    # nested sums whose merged weight is 1e-4 * 2e-5 = 2e-9
+    inner = Sum(children=[mk(1.0, 0.0), mk(0.0, 0.0)], weights=f32(1.0 - 2e-5, 2e-5))
+    out.append(('rare-nested', Sum(children=[mk(1.0, 1.0), inner], weights=f32(1.0 - 1e-4, 1e-4))))
+    # the same with double-precision weights 1e-5 * 1e-5
+    inner = Sum(children=[mk(1.0, 0.0), mk(0.0, 0.0)], weights=np.array([1.0 - 1e-5, 1e-5]))
+    out.append(('rare-nested-float64-weights', Sum(children=[mk(1.0, 1.0), inner], weights=np.array([1.0 - 1e-5, 1e-5]))))
+    # a shared node reached through two rare parents
+    sh = mk(0.0, 0.0)
+    pa = Sum(children=[mk(1.0, 0.0), sh], weights=f32(1.0 - 3e-5, 3e-5))
+    pb = Sum(children=[mk(0.0, 1.0), sh], weights=f32(1.0 - 2e-5, 2e-5))
+    out.append(('rare-shared', Sum(children=[mk(1.0, 1.0), pa, pb], weights=f32(1.0 - 2e-4, 1e-4, 1e-4))))
+    # one weight within 1e-5 of one, the rest of the mass on a component that alone supports some inputs
+    out.append(('near-one-weight', Sum(children=[mk(1.0, 1.0), mk(0.0, 0.3)], weights=f32(1.0 - 4e-6, 4e-6))))
+    out.append(('near-one-weight-nested', Product(children=[Sum(children=[Bernoulli(0, 1.0), Bernoulli(0, 0.0)], weights=f32(1.0 - 4e-6, 4e-6)),
+                                                            Sum(children=[Bernoulli(1, 0.25), Bernoulli(1, 0.5)], weights=f32(0.5, 0.5))])))
     return out
 
 
